@@ -376,6 +376,9 @@ fn replay(case: &Value, st: &mut Stats, seed: u64) {
 pub fn run(args: &Args) -> i32 {
     let mut ctx = crate::new_ctx("C11", args);
     ctx.level = "fault_enumeration";
+    crate::util::set_run_level("fault_enumeration");
+    // one fault execution takes well under a millisecond: a case that runs for seconds is a call that does not return
+    crate::util::set_hang_budget_secs(10);
     let seed = args.seed;
     if let Some(path) = &args.replay {
         return crate::props::replay_file(ctx, path, |c, st| replay(c, st, seed));
@@ -437,7 +440,11 @@ pub fn run(args: &Args) -> i32 {
     ctx.bound("writer_io_calls_per_scenario", json!({"min": wb.iter().flatten().map(|b| b.n).min(), "max": wb.iter().flatten().map(|b| b.n).max()}));
     ctx.bound("writer_fault_executions", json!(witems.len()));
     let (wscn_r, wb_r, src_r) = (&wscn, &wb, &src);
-    let s = par_for(witems.len() as u64, 16, |t, st| {
+    let wdesc = |t: u64| -> Option<Value> {
+        let (i, devs) = witems.get(t as usize)?;
+        Some(json!({"writer": wscn_r[*i].label, "faults": devs.iter().map(|(k, d)| json!({"call": k, "kind": format!("{d:?}")})).collect::<Vec<_>>()}))
+    };
+    let s = crate::util::par_for_desc(witems.len() as u64, 16, &wdesc, |t, st| {
         let (i, devs) = &witems[t as usize];
         if let Some(b) = &wb_r[*i] {
             check_writer(&wscn_r[*i], src_r, &b.base, devs, st, (devs.len() as u64) << 48 | t);
@@ -483,7 +490,12 @@ pub fn run(args: &Args) -> i32 {
     ctx.bound("reader_fault_executions", json!(ritems.len()));
     ctx.bound("reader_io_calls", json!(rbases.iter().flat_map(|b| b.iter().flatten().map(|x| x.0)).collect::<Vec<_>>()));
     let (rscn_r, rb_r) = (&rscn, &rbases);
-    let s = par_for(ritems.len() as u64, 16, |t, st| {
+    let rdesc = |t: u64| -> Option<Value> {
+        let (i, route, devs) = ritems.get(t as usize)?;
+        let rname = ["seekable", "stream", "visitor"][*route as usize];
+        Some(json!({"reader": rscn_r[*i].label, "route": rname, "faults": devs.iter().map(|(k, d)| json!({"call": k, "kind": format!("{d:?}")})).collect::<Vec<_>>()}))
+    };
+    let s = crate::util::par_for_desc(ritems.len() as u64, 16, &rdesc, |t, st| {
         let (i, route, devs) = &ritems[t as usize];
         if let Some((_, b)) = &rb_r[*i][*route as usize] {
             check_reader(&rscn_r[*i], *route, b, devs, st, (1 << 60) | (devs.len() as u64) << 48 | t);
